@@ -73,6 +73,7 @@ CHECKS = {
                         "the data-race clause is not decided here: under the controlled scheduler all steps are ordered by the scheduler's hand-offs"],
     }),
     "C09": {
+        "extra_parts": ["C09R"],  # the reference client's request loop over stdin, own test binary
         "testpkg": "./internal",
         "instrument": [{"pkg": "./internal", "files": ["delimited.go"], "mode": "S"}],
         "sim": ["simrt", "simwork", "simio"],
